@@ -47,7 +47,7 @@ var hCfgVals = map[string][]string{
 	"goos":   {"linux", "darwin", "windows", "plan9"},
 	"goarch": {"amd64", "arm64", "386"},
 	"pkg":    {"p/a", "p/b", "p/c", "golang.org/x/perf/a/very/long/package/path/that/goes/on/and/on/and/on/impl1", "golang.org/x/perf/a/very/long/package/path/that/goes/on/and/on/and/on/impl2"},
-	"cpu":    {"1", "2", "10", "1k", "1Ki", "2M", "1500", "NaN", "inf", "abc", "zed", "3Gi", "1Zi", "1Yi", "2Z", "5.5", "0.5k", "999999999.5", "1000000000", "9.999999994e-1", "1e0", "1.0000000006", "4", "8", "010", "0100", "007", "08", "012k", ".5k", "1.k", ".5Mi", "2.5k", "600", "5.", "0.000000000000000000000000125Ki", "1000000000000000000000000000000k", "0000000000000000000000000000000000002"},
+	"cpu":    {"1", "2", "10", "1k", "1Ki", "2M", "1500", "NaN", "inf", "abc", "zed", "3Gi", "1Zi", "1Yi", "2Z", "5.5", "0.5k", "999999999.5", "1000000000", "9.999999994e-1", "1e0", "1.0000000006", "4", "8", "010", "0100", "007", "08", "012k", ".5k", "1.k", ".5Mi", "2.5k", "600", "5.", "0.000000000000000000000000125Ki", "1000000000000000000000000000000k", "0000000000000000000000000000000000002", "+Inf", "-Inf", "+inf", "Infinity", "-infinity", "+7", "\xb5", "\u00b5"},
 	"note":   {"base", "opt", "opt2", "x y", "zz", "\xffa", "\xfeb", "\xc3", "é", "\U00010000", "\uffff", "\xf0\x90", "opt ", "opt\t", "base \t", "box\xe9", "box\xe8"}, // invalid UTF-8 and astral runes: bytewise is not code-point order
 	"commit": {"c1", "c2", "c3", "c4", "c5", "c6"},
 }
@@ -123,7 +123,7 @@ func hGenResult(T *sim.Tape, universe int, nsub int) *hResult {
 		name += "/" + []string{"plain", "x"}[T.Intn(2, "posv")]
 	}
 	if T.Intn(3, "procs") == 0 {
-		name += "-" + []string{"1", "8", "16"}[T.Intn(3, "procsv")]
+		name += "-" + []string{"1", "8", "16", "0", "08"}[T.Intn(5, "procsv")]
 	}
 	res.name = name
 	nu := 1 + T.Intn(3, "nunits")
@@ -338,7 +338,7 @@ type hInstance struct {
 
 func hFieldText(f hField) string {
 	q := func(s string) string {
-		if s == "" || strings.ContainsAny(s, " \t\"()@,:*") {
+		if s == "" || strings.ContainsAny(s, " \t\"()@,:*") || s[0] == '-' {
 			return strconv.Quote(s)
 		}
 		return s
